@@ -57,8 +57,9 @@ static Constraint_System shuffled_cs(Rng& r, const Constraint_System& cs, dimens
     const Constraint& a = v[r.below((unsigned)v.size())];
     const Constraint& b = v[r.below((unsigned)v.size())];
     if (!a.is_strict_inequality() && !b.is_strict_inequality() && !a.is_equality() && !b.is_equality()) {
+      // (Constraint::expression() carries the inhomogeneous term)
       Linear_Expression e = Linear_Expression(a.expression()) + Linear_Expression(b.expression());
-      e += a.inhomogeneous_term() + b.inhomogeneous_term() + 1;
+      e += 1;
       out.insert(e >= 0);
     }
   }
@@ -250,7 +251,7 @@ static Constraint_System rnd_limit_cs(Rng& r, dimension_type n, const Constraint
     if (w < 4 && !zv.empty()) {
       // a constraint of the larger argument, weakened by 0..2
       const Constraint& c = zv[r.below((unsigned)zv.size())];
-      Linear_Expression e(c.expression()); e += c.inhomogeneous_term();
+      Linear_Expression e(c.expression());
       if (c.is_equality()) { if (r.chance(1, 2)) cs.insert(e == 0); else cs.insert(e + 1 >= 0); }
       else { e += Coefficient(r.range(0, 2)); if (nnc && c.is_strict_inequality() && r.chance(1, 2)) cs.insert(e > 0); else cs.insert(e >= 0); }
     } else if (w < 8 && ex != EX_POLY && n > 0) {
@@ -267,6 +268,7 @@ static Constraint_System rnd_limit_cs(Rng& r, dimension_type n, const Constraint
     } else {
       Constraint c = rnd_con(r, n, nnc, false);
       if (ex != EX_POLY && c.is_strict_inequality()) continue;
+      { dimension_type i0 = 0, i1 = 0; if (nz_count(c, n, i0, i1) == 0 && !r.chance(1, 30)) continue; }   // constant rows: rarely
       cs.insert(c);
     }
   }
@@ -290,7 +292,10 @@ template <class PH> static void emit_poly_certs(const PH& y, const PH& r, dimens
   jl(cert_data("CR", r, n));
   PH yc(y), rc(r), rc2(r);
   OS o; o << "CK";
-  { H79_Certificate cy(yc); H79_Certificate cr(rc); o << " h79 " << cy.compare(rc2) << " " << cy.compare(cr) << " " << cr.compare(cy); }
+  // (through Polyhedron&: the template constructor H79_Certificate(const PH&) would rebuild the object as
+  //  a C polyhedron from its constraints and throws on strict inequalities)
+  const Polyhedron& ypc = yc; const Polyhedron& rpc = rc; const Polyhedron& rpc2 = rc2;
+  { H79_Certificate cy(ypc); H79_Certificate cr(rpc); o << " h79 " << cy.compare(rpc2) << " " << cy.compare(cr) << " " << cr.compare(cy); }
   { BHRZ03_Certificate cy(yc); BHRZ03_Certificate cr(rc); o << " bhrz " << cy.compare(rc2) << " " << cy.compare(cr) << " " << cr.compare(cy)
       << " " << (cy.OK() ? 1 : 0) << (cr.OK() ? 1 : 0); }
   jl(o.str());
@@ -331,13 +336,20 @@ static void run_chain(long id, Rng& r, dimension_type n, const Ops<D>& op) {
       std::vector<Constraint> ineq; for (size_t i = 0; i < v.size(); ++i) if (v[i].is_nonstrict_inequality()) ineq.push_back(v[i]);
       if (!ineq.empty()) {
         const Constraint& c = ineq[r.below((unsigned)ineq.size())];
-        Linear_Expression e(c.expression()); e += c.inhomogeneous_term();
+        Linear_Expression e(c.expression());
         Constraint_System cs1; cs1.insert(e > 0);
         D x1(x); x1.add_constraints(cs1);
         if (!x1.is_empty()) x = x1;
       }
     }
   } catch (...) { jl("exc " + pplv::exc_class() + " start"); jl("endchain 0 exc"); return; }
+  // the region the chain lives in: everything, a box, or a random half-space / wedge
+  C_Polyhedron region(n, UNIVERSE);
+  {
+    unsigned w = r.below(4);
+    if (w == 1) { long b = r.range(3, 8); for (dimension_type i = 0; i < n; ++i) { region.add_constraint(Variable(i) <= b); region.add_constraint(Variable(i) >= -b); } }
+    else if (w == 2) { Constraint_System rc = rnd_cs(r, n, false, 2, false); C_Polyhedron t(region); t.add_constraints(rc); if (t.contains(closed_hull_of(x))) region = t; }
+  }
   long step = 0;
   const char* status = "limit";
   for (; step < g_limit; ++step) {
@@ -347,8 +359,9 @@ static void run_chain(long id, Rng& r, dimension_type n, const Ops<D>& op) {
       D piece(n, EMPTY); bool found = false;
       for (int attempt = 0; attempt < 14 && !found; ++attempt) {
         Generator_System pg; pg.insert(rnd_outside_point(r, n, hull, attempt));
-        if (r.chance(1, 6)) { Generator q = rnd_outside_point(r, n, hull, attempt); pg.insert(q); }
-        if (r.chance(1, 12)) {
+        { C_Polyhedron pp(pg); if (!region.contains(pp)) continue; }
+        if (r.chance(1, 6)) { Generator q = rnd_outside_point(r, n, hull, attempt); Generator_System qs; qs.insert(q); if (region.contains(C_Polyhedron(qs))) pg.insert(q); }
+        if (r.chance(1, 12) && region.is_universe()) {
           Linear_Expression e = dimfix(n); bool nz = false;
           for (dimension_type i = 0; i < n; ++i) { long c = r.range(-1, 1); if (c) nz = true; e += Coefficient(c) * Variable(i); }
           if (nz) pg.insert(ray(e));
@@ -498,19 +511,340 @@ template <class PH> static void cert_lines(long id, Rng& r, dimension_type n) {
     jl(cert_data("CR", q, n));
     PH pc(p), qc(q), qc2(q);
     OS k; k << "CK";
-    { H79_Certificate cp(pc); H79_Certificate cq(qc); k << " h79 " << (incl ? cp.compare(qc2) : 9) << " " << cp.compare(cq) << " " << cq.compare(cp); }
+    const Polyhedron& ppc = pc; const Polyhedron& qpc = qc; const Polyhedron& qpc2 = qc2;
+    { H79_Certificate cp(ppc); H79_Certificate cq(qpc); k << " h79 " << (incl ? cp.compare(qpc2) : 9) << " " << cp.compare(cq) << " " << cq.compare(cp); }
     { BHRZ03_Certificate cp(pc); BHRZ03_Certificate cq(qc); k << " bhrz " << (incl ? cp.compare(qc2) : 9) << " " << cp.compare(cq) << " " << cq.compare(cp)
         << " " << (cp.OK() ? 1 : 0) << (cq.OK() ? 1 : 0); }
+    // the certificate must be a function of the point set: compare with certificates of rebuilt copies
+    { k << " rep";
+      for (int t = 0; t < 2; ++t) {
+        PH p2 = Tr<PH>::rehist(r, p, n); PH p3(p);
+        const Polyhedron& a = p3; const Polyhedron& b = p2;
+        H79_Certificate ha(a), hb(b); BHRZ03_Certificate ba(a), bb(b);
+        k << " " << ha.compare(hb) << " " << ba.compare(bb);
+      } }
     jl(k.str());
     jl("endcert");
   } catch (...) { jl("exc " + pplv::exc_class()); jl("endcert"); }
 }
 
 // ---- MORE (grids, powersets) -------------------------------------------------------------------
-static void grid_cert_lines(long, Rng&, dimension_type) {}
-template <class PH> static void run_powerset_chain(long, Rng&, dimension_type) {}
-static void run_grid_chain(long, Rng&, dimension_type) {}
-static void run_powerset_grid_chain(long, Rng&, dimension_type) {}
+// grids: congruence systems are printed as  m  (a_0 .. a_{n-1} b f)*   meaning  a.x + b = 0 (mod f)
+static void put_cgs(OS& o, const Congruence_System& cgs, dimension_type n) {
+  dimension_type m = 0;
+  for (Congruence_System::const_iterator i = cgs.begin(); i != cgs.end(); ++i) ++m;
+  o << " " << m;
+  for (Congruence_System::const_iterator i = cgs.begin(); i != cgs.end(); ++i) {
+    for (dimension_type k = 0; k < n; ++k) o << " " << (k < i->space_dimension() ? i->coefficient(Variable(k)) : Coefficient(0));
+    o << " " << i->inhomogeneous_term() << " " << i->modulus();
+  }
+}
+static void put_grid(OS& o, const Grid& g, dimension_type n) { Grid c(g); put_cgs(o, c.congruences(), n); }
+static void put_grid_min(OS& o, const Grid& g, dimension_type n) { Grid c(g); put_cgs(o, c.minimized_congruences(), n); }
+static std::string grid_line(const char* tag, const Grid& g, dimension_type n) { OS o; o << tag; put_grid(o, g, n); return o.str(); }
+
+static Grid_Generator rnd_grid_point(Rng& r, dimension_type n, long b) {
+  Linear_Expression e = dimfix(n);
+  for (dimension_type i = 0; i < n; ++i) e += Coefficient(r.range(-b, b)) * Variable(i);
+  static const long ds[] = {1, 1, 1, 2, 3, 4, 6};
+  return grid_point(e, ds[r.below(7)]);
+}
+static Grid rnd_grid(Rng& r, dimension_type n) {
+  Grid_Generator_System gs;
+  gs.insert(rnd_grid_point(r, n, 4));
+  unsigned k = r.below(3);
+  for (unsigned i = 0; i < k; ++i) {
+    Linear_Expression e = dimfix(n); bool nz = false;
+    for (dimension_type j = 0; j < n; ++j) { long c = r.range(-6, 6); if (c) nz = true; e += Coefficient(c) * Variable(j); }
+    if (!nz) continue;
+    if (r.chance(1, 6)) gs.insert(grid_line(e)); else gs.insert(parameter(e, r.chance(1, 4) ? 2 : 1));
+  }
+  return Grid(gs);
+}
+static Grid grid_rehist(Rng& r, const Grid& x) {
+  Grid c(x);
+  switch (r.below(6)) {
+    case 0: return c;
+    case 1: return Grid(c.congruences());
+    case 2: return Grid(c.minimized_congruences());
+    case 3: return Grid(c.grid_generators());
+    case 4: return Grid(c.minimized_grid_generators());
+    default: (void)c.minimized_grid_generators(); (void)c.minimized_congruences(); return c;
+  }
+}
+static Congruence_System rnd_limit_cgs(Rng& r, dimension_type n, const Grid& z) {
+  Congruence_System cgs;
+  unsigned m = 1 + r.below(3);
+  std::vector<Congruence> zv;
+  { Grid c(z); const Congruence_System& zc = c.minimized_congruences(); for (Congruence_System::const_iterator i = zc.begin(); i != zc.end(); ++i) zv.push_back(*i); }
+  for (unsigned k = 0; k < m; ++k) {
+    if (!zv.empty() && r.chance(1, 2)) {
+      // a congruence of z, possibly weakened: the same expression with the modulus divided
+      const Congruence& c = zv[r.below((unsigned)zv.size())];
+      Linear_Expression e(c.expression());
+      Coefficient f = c.modulus();
+      if (f == 0) { if (r.chance(1, 2)) cgs.insert((e %= 0) / 0); else cgs.insert((e %= 0) / Coefficient(r.range(1, 4))); }
+      else cgs.insert((e %= 0) / f);
+    } else {
+      Linear_Expression e = dimfix(n); bool nz = false;
+      for (dimension_type j = 0; j < n; ++j) { long c = r.range(-3, 3); if (c) nz = true; e += Coefficient(c) * Variable(j); }
+      if (!nz && n > 0) e += Variable(0);
+      e += Coefficient(r.range(-3, 3));
+      cgs.insert((e %= 0) / Coefficient(r.range(0, 4)));
+    }
+  }
+  return cgs;
+}
+struct GridOp {
+  std::string name;
+  std::function<void(Grid&, const Grid&, unsigned*)> widen;
+  std::function<void(Grid&, const Grid&, const Congruence_System&, unsigned*)> limited;
+};
+static std::vector<GridOp> grid_ops() {
+  std::vector<GridOp> v;
+  { GridOp o; o.name = "congruence"; o.widen = [](Grid& x, const Grid& y, unsigned* tp) { x.congruence_widening_assign(y, tp); };
+    o.limited = [](Grid& x, const Grid& y, const Congruence_System& c, unsigned* tp) { x.limited_congruence_extrapolation_assign(y, c, tp); }; v.push_back(o); }
+  { GridOp o; o.name = "generator"; o.widen = [](Grid& x, const Grid& y, unsigned* tp) { x.generator_widening_assign(y, tp); };
+    o.limited = [](Grid& x, const Grid& y, const Congruence_System& c, unsigned* tp) { x.limited_generator_extrapolation_assign(y, c, tp); }; v.push_back(o); }
+  { GridOp o; o.name = "widening"; o.widen = [](Grid& x, const Grid& y, unsigned* tp) { x.widening_assign(y, tp); };
+    o.limited = [](Grid& x, const Grid& y, const Congruence_System& c, unsigned* tp) { x.limited_extrapolation_assign(y, c, tp); }; v.push_back(o); }
+  return v;
+}
+static void emit_grid_certs(const Grid& y, const Grid& r, dimension_type n) {
+  { OS o; o << "CY"; put_grid_min(o, y, n); jl(o.str()); }
+  { OS o; o << "CR"; put_grid_min(o, r, n); jl(o.str()); }
+  Grid yc(y), rc(r), rc2(r);
+  Grid_Certificate cy(yc), cr(rc);
+  OS o; o << "CK grid " << cy.compare(rc2) << " " << cy.compare(cr) << " " << cr.compare(cy); jl(o.str());
+}
+static void run_grid_chain(long id, Rng& r, dimension_type n) {
+  std::vector<GridOp> ops = grid_ops();
+  const GridOp& op = ops[r.below((unsigned)ops.size())];
+  { OS o; o << "chain " << id << " G " << n << " " << op.name << " conv=1 cert=grid exact=1"; jl(o.str()); }
+  Grid x(n, EMPTY);
+  try { x = rnd_grid(r, n); } catch (...) { jl("exc " + pplv::exc_class() + " start"); jl("endchain 0 exc"); return; }
+  long step = 0; const char* status = "limit";
+  for (; step < g_limit; ++step) {
+    try {
+      Grid piece(n, EMPTY); bool found = false;
+      for (int attempt = 0; attempt < 14 && !found; ++attempt) {
+        Grid_Generator_System pg; pg.insert(rnd_grid_point(r, n, 3 + attempt));
+        piece = Grid(pg);
+        if (!x.contains(piece)) found = true;
+      }
+      if (!found) { status = "saturated"; break; }
+      Grid z(x), z2(n, EMPTY);
+      if (r.chance(1, 2)) { z.upper_bound_assign(piece); z = grid_rehist(r, z); }
+      else { Grid p1 = grid_rehist(r, piece); Grid x1 = grid_rehist(r, x); z = p1; z.upper_bound_assign(x1); }
+      { Grid x1 = grid_rehist(r, x); z2 = x1; z2.upper_bound_assign(piece); z2 = grid_rehist(r, z2); }
+      Grid y2 = grid_rehist(r, x);
+      { OS o; o << "step " << step; jl(o.str()); }
+      jl(grid_line("Y", x, n)); jl(grid_line("Z", z, n)); jl(grid_line("Y2", y2, n)); jl(grid_line("Z2", z2, n));
+      {
+        unsigned tp0 = r.below(3), tp = tp0;
+        Grid xt(z), yt(x);
+        jl("run token");
+        op.widen(xt, yt, &tp);
+        OS o; o << "T " << tp0 << " " << tp; put_grid(o, xt, n); jl(o.str());
+      }
+      {
+        Congruence_System lcgs = rnd_limit_cgs(r, n, z);
+        Grid xl(z), yl(x);
+        OS o; o << "L lim"; put_cgs(o, lcgs, n); o << " |";
+        for (Congruence_System::const_iterator i = lcgs.begin(); i != lcgs.end(); ++i) o << " 1";
+        jl("run limited " + o.str());
+        op.limited(xl, yl, lcgs, nullptr);
+        o << " |"; put_grid(o, xl, n); jl(o.str());
+      }
+      jl("run plain2");
+      op.widen(z2, y2, nullptr);
+      jl(grid_line("R2", z2, n));
+      Grid res(z);
+      jl("run plain");
+      op.widen(res, x, nullptr);
+      jl(grid_line("R", res, n));
+      jl(grid_line("YA", x, n));
+      emit_grid_certs(x, res, n);
+      jl("endstep");
+      bool stationary = x.contains(res);
+      x = res;
+      if (stationary) { status = "stationary"; ++step; break; }
+    } catch (...) { jl("exc " + pplv::exc_class()); status = "exc"; break; }
+  }
+  OS o; o << "endchain " << step << " " << status; jl(o.str());
+}
+static void grid_cert_lines(long id, Rng& r, dimension_type n) {
+  for (int k = 0; k < 4; ++k) {
+    try {
+      Grid p = rnd_grid(r, n), q = rnd_grid(r, n);
+      bool incl = r.chance(2, 3);
+      if (incl) q.upper_bound_assign(p);
+      OS o; o << "gcert " << id * 10 + k << " G " << n << " " << (incl ? 1 : 0); jl(o.str());
+      { OS c; c << "CY"; put_grid_min(c, p, n); jl(c.str()); }
+      { OS c; c << "CR"; put_grid_min(c, q, n); jl(c.str()); }
+      Grid pc(p), qc(q), qc2(q), p2 = grid_rehist(r, p), p3 = grid_rehist(r, p);
+      Grid_Certificate cp(pc), cq(qc), cp2(p2);
+      OS kx; kx << "CK grid " << cp.compare(qc2) << " " << cp.compare(cq) << " " << cq.compare(cp) << " rep " << cp.compare(cp2) << " " << cp.compare(p3);
+      jl(kx.str());
+      jl("endcert");
+    } catch (...) { jl("exc " + pplv::exc_class()); jl("endcert"); }
+  }
+}
+
+// ---- powersets of polyhedra
+template <class PH> static void put_ps(OS& o, const Pointset_Powerset<PH>& ps, dimension_type n) {
+  o << " " << ps.size();
+  for (typename Pointset_Powerset<PH>::const_iterator i = ps.begin(); i != ps.end(); ++i) { PH c(i->pointset()); put_cs(o, c.constraints(), n); }
+}
+template <class PH> static std::string ps_line(const char* tag, const Pointset_Powerset<PH>& ps, dimension_type n) { OS o; o << tag; put_ps(o, ps, n); return o.str(); }
+template <class PH> static Pointset_Powerset<PH> ps_rehist(Rng& r, const Pointset_Powerset<PH>& ps, dimension_type n, bool permute) {
+  std::vector<PH> v;
+  for (typename Pointset_Powerset<PH>::const_iterator i = ps.begin(); i != ps.end(); ++i) v.push_back(Tr<PH>::rehist(r, i->pointset(), n));
+  if (permute) shuffle(r, v);
+  Pointset_Powerset<PH> out(n, EMPTY);
+  for (size_t i = 0; i < v.size(); ++i) out.add_disjunct(v[i]);
+  return out;
+}
+template <class PH> static void emit_ps_certs(const char* tagD, const char* tagH, const Pointset_Powerset<PH>& ps, dimension_type n) {
+  PH hull(n, EMPTY);
+  for (typename Pointset_Powerset<PH>::const_iterator i = ps.begin(); i != ps.end(); ++i) {
+    jl(cert_data(tagD, i->pointset(), n));
+    hull.upper_bound_assign(i->pointset());
+  }
+  jl(cert_data(tagH, hull, n));
+}
+template <class PH> struct PsOp {
+  std::string name; int conv; std::string cert;
+  std::function<void(Pointset_Powerset<PH>&, const Pointset_Powerset<PH>&)> widen;
+};
+template <class PH> static std::vector<PsOp<PH> > ps_ops(Rng& r) {
+  typedef Pointset_Powerset<PH> PS;
+  std::vector<PsOp<PH> > v;
+  { PsOp<PH> o; o.name = "BHZ03-H79-H79"; o.conv = 1; o.cert = "h79";
+    o.widen = [](PS& x, const PS& y) { x.template BHZ03_widening_assign<H79_Certificate>(y, widen_fun_ref(&PH::H79_widening_assign)); }; v.push_back(o); }
+  { PsOp<PH> o; o.name = "BHZ03-BHRZ03-BHRZ03"; o.conv = 1; o.cert = "bhrz";
+    o.widen = [](PS& x, const PS& y) { x.template BHZ03_widening_assign<BHRZ03_Certificate>(y, widen_fun_ref(&PH::BHRZ03_widening_assign)); }; v.push_back(o); }
+  { PsOp<PH> o; o.name = "BHZ03-BHRZ03-H79"; o.conv = 1; o.cert = "bhrz";
+    o.widen = [](PS& x, const PS& y) { x.template BHZ03_widening_assign<BHRZ03_Certificate>(y, widen_fun_ref(&PH::H79_widening_assign)); }; v.push_back(o); }
+  { unsigned k = 1 + r.below(3); PsOp<PH> o; o.name = "BGP99-H79-" + std::to_string(k); o.conv = 0; o.cert = "none";
+    o.widen = [k](PS& x, const PS& y) { x.BGP99_extrapolation_assign(y, widen_fun_ref(&PH::H79_widening_assign), k); }; v.push_back(o); }
+  { unsigned k = 1 + r.below(3); PsOp<PH> o; o.name = "BGP99-BHRZ03-" + std::to_string(k); o.conv = 0; o.cert = "none";
+    o.widen = [k](PS& x, const PS& y) { x.BGP99_extrapolation_assign(y, widen_fun_ref(&PH::BHRZ03_widening_assign), k); }; v.push_back(o); }
+  return v;
+}
+template <class PH> static void run_powerset_chain(long id, Rng& r, dimension_type n) {
+  typedef Pointset_Powerset<PH> PS;
+  std::vector<PsOp<PH> > ops = ps_ops<PH>(r);
+  const PsOp<PH>& op = ops[r.below((unsigned)ops.size())];
+  bool permute = r.chance(1, 3);
+  { OS o; o << "chain " << id << " P" << Tr<PH>::tag() << " " << n << " " << op.name << " conv=" << op.conv << " cert=" << op.cert
+            << " exact=1 perm=" << (permute ? 1 : 0); jl(o.str()); }
+  PS x(n, EMPTY);
+  try {
+    unsigned k = 1 + r.below(2);
+    for (unsigned i = 0; i < k; ++i) x.add_disjunct(Tr<PH>::from_gs(rnd_small_gs(r, n, 1), n));
+    x.omega_reduce();
+  } catch (...) { jl("exc " + pplv::exc_class() + " start"); jl("endchain 0 exc"); return; }
+  long step = 0; const char* status = "limit";
+  for (; step < g_limit; ++step) {
+    try {
+      // hull of x (closed) to aim just outside
+      C_Polyhedron hull(n, EMPTY);
+      for (typename PS::const_iterator i = x.begin(); i != x.end(); ++i) hull.upper_bound_assign(closed_hull_of(i->pointset()));
+      PS piece(n, EMPTY); bool found = false;
+      for (int attempt = 0; attempt < 14 && !found; ++attempt) {
+        Generator_System pg; pg.insert(rnd_outside_point(r, n, hull, attempt));
+        if (r.chance(1, 3)) pg.insert(rnd_outside_point(r, n, hull, attempt));
+        PS p1(n, EMPTY); p1.add_disjunct(Tr<PH>::from_gs(pg, n));
+        if (!x.geometrically_covers(p1)) { piece = p1; found = true; }
+      }
+      if (!found) { status = "saturated"; break; }
+      PS z = ps_rehist(r, x, n, false); z.upper_bound_assign(piece);
+      if (r.chance(1, 3)) z.omega_reduce();
+      PS y2 = ps_rehist(r, x, n, permute);
+      PS z2 = ps_rehist(r, z, n, permute);
+      { OS o; o << "step " << step; jl(o.str()); }
+      jl(ps_line("Y", x, n)); jl(ps_line("Z", z, n)); jl(ps_line("Y2", y2, n)); jl(ps_line("Z2", z2, n));
+      jl("run plain2");
+      op.widen(z2, y2);
+      jl(ps_line("R2", z2, n));
+      PS res(z);
+      jl("run plain");
+      op.widen(res, x);
+      jl(ps_line("R", res, n));
+      jl(ps_line("YA", x, n));
+      if (op.conv) { emit_ps_certs("CYD", "CYH", x, n); emit_ps_certs("CRD", "CRH", res, n); }
+      jl("endstep");
+      bool stationary = x.definitely_entails(res) && res.definitely_entails(x);
+      x = res;
+      if (stationary) { status = "stationary"; ++step; break; }
+    } catch (...) { jl("exc " + pplv::exc_class()); status = "exc"; break; }
+  }
+  OS o; o << "endchain " << step << " " << status; jl(o.str());
+}
+
+// ---- powersets of grids
+static void put_psg(OS& o, const PG& ps, dimension_type n) {
+  o << " " << ps.size();
+  for (PG::const_iterator i = ps.begin(); i != ps.end(); ++i) put_grid(o, i->pointset(), n);
+}
+static std::string psg_line(const char* tag, const PG& ps, dimension_type n) { OS o; o << tag; put_psg(o, ps, n); return o.str(); }
+static PG psg_rehist(Rng& r, const PG& ps, dimension_type n) {
+  PG out(n, EMPTY);
+  for (PG::const_iterator i = ps.begin(); i != ps.end(); ++i) out.add_disjunct(grid_rehist(r, i->pointset()));
+  return out;
+}
+static void emit_psg_certs(const char* tagD, const char* tagH, const PG& ps, dimension_type n) {
+  Grid hull(n, EMPTY);
+  for (PG::const_iterator i = ps.begin(); i != ps.end(); ++i) {
+    OS o; o << tagD; put_grid_min(o, i->pointset(), n); jl(o.str());
+    hull.upper_bound_assign(i->pointset());
+  }
+  OS o; o << tagH; put_grid_min(o, hull, n); jl(o.str());
+}
+static void run_powerset_grid_chain(long id, Rng& r, dimension_type n) {
+  unsigned which = r.below(3);
+  std::string name = which == 0 ? "BHZ03-Grid-congruence" : which == 1 ? "BHZ03-Grid-generator" : "BGP99-congruence-2";
+  int conv = which < 2 ? 1 : 0;
+  { OS o; o << "chain " << id << " PG " << n << " " << name << " conv=" << conv << " cert=" << (conv ? "grid" : "none") << " exact=1"; jl(o.str()); }
+  auto widen = [which](PG& x, const PG& y) {
+    if (which == 0) x.BHZ03_widening_assign<Grid_Certificate>(y, widen_fun_ref(&Grid::congruence_widening_assign));
+    else if (which == 1) x.BHZ03_widening_assign<Grid_Certificate>(y, widen_fun_ref(&Grid::generator_widening_assign));
+    else x.BGP99_extrapolation_assign(y, widen_fun_ref(&Grid::congruence_widening_assign), 2);
+  };
+  PG x(n, EMPTY);
+  try { unsigned k = 1 + r.below(2); for (unsigned i = 0; i < k; ++i) x.add_disjunct(rnd_grid(r, n)); x.omega_reduce(); }
+  catch (...) { jl("exc " + pplv::exc_class() + " start"); jl("endchain 0 exc"); return; }
+  long step = 0; const char* status = "limit";
+  for (; step < g_limit; ++step) {
+    try {
+      PG piece(n, EMPTY); bool found = false;
+      for (int attempt = 0; attempt < 14 && !found; ++attempt) {
+        Grid_Generator_System pg; pg.insert(rnd_grid_point(r, n, 3 + attempt));
+        if (r.chance(1, 3)) { Linear_Expression e = dimfix(n); bool nz = false; for (dimension_type j = 0; j < n; ++j) { long c = r.range(-4, 4); if (c) nz = true; e += Coefficient(c) * Variable(j); } if (nz) pg.insert(parameter(e)); }
+        Grid g(pg);
+        bool covered = false;
+        for (PG::const_iterator i = x.begin(); i != x.end(); ++i) if (i->pointset().contains(g)) covered = true;
+        if (!covered) { piece.add_disjunct(g); found = true; }
+      }
+      if (!found) { status = "saturated"; break; }
+      PG z = psg_rehist(r, x, n); z.upper_bound_assign(piece);
+      PG y2 = psg_rehist(r, x, n), z2 = psg_rehist(r, z, n);
+      { OS o; o << "step " << step; jl(o.str()); }
+      jl(psg_line("Y", x, n)); jl(psg_line("Z", z, n)); jl(psg_line("Y2", y2, n)); jl(psg_line("Z2", z2, n));
+      jl("run plain2"); widen(z2, y2); jl(psg_line("R2", z2, n));
+      PG res(z);
+      jl("run plain"); widen(res, x); jl(psg_line("R", res, n));
+      jl(psg_line("YA", x, n));
+      if (conv) { emit_psg_certs("CYD", "CYH", x, n); emit_psg_certs("CRD", "CRH", res, n); }
+      jl("endstep");
+      bool stationary = x.definitely_entails(res) && res.definitely_entails(x);
+      x = res;
+      if (stationary) { status = "stationary"; ++step; break; }
+    } catch (...) { jl("exc " + pplv::exc_class()); status = "exc"; break; }
+  }
+  OS o; o << "endchain " << step << " " << status; jl(o.str());
+}
 // ---- END MORE ------------------------------------------------------------------------------------
 
 int main(int argc, char** argv) {
